@@ -52,7 +52,9 @@ func (s *session) judge(img *image) {
 	r.logf("L%d crash image #%d: %s-sync point %d in op %d (%s) file %q; %s; written so far %d records, obliged durable %d",
 		img.level, r.imgSeq, img.kind, img.point, img.opIdx, img.opKind, img.file, img.lostDesc, img.wlen, img.d)
 	res := recoverDirs(walDir, snapDir, true, second)
+	r.curLevel = s.level
 	k, ok := s.evaluate(img, res)
+	r.curLevel = 0
 	if !ok {
 		closeQuietly(res.w)
 		return
@@ -130,6 +132,11 @@ func (s *session) judge(img *image) {
 		m2.push(s.m.W[i])
 	}
 	m2.d, m2.done = k, k
+	for _, c := range s.m.cuts {
+		if c <= k {
+			m2.cuts = append(m2.cuts, c)
+		}
+	}
 	m2.snaps = append(m2.snaps, s.m.snaps...)
 	m2.doneSnap = res.walsnap.Index
 	s2.m = m2
@@ -187,6 +194,11 @@ func (s *session) evaluate(img *image, res *recResult) (int, bool) {
 	}
 	k := matchPrefix(m.W, img.wlen, res.walsnap.Index, m.meta, res.rw)
 	if k < 0 {
+		if b, kl := matchLiteral(m.W, img.wlen, m.cuts, res.walsnap.Index, res.rw); kl >= 0 {
+			r.fail(sigOverwritten, "%s: recovered %s at snapshot %d is what ReadAll literally folds from records %d..%d, but the log those saves describe is %s: an entry past the snapshot index that a later save had overwritten (from an index at or below the snapshot) was returned",
+				where, describe(res.rw), res.walsnap.Index, b, kl, describeFold(m.W, kl, res.walsnap.Index))
+			return 0, false
+		}
 		r.fail(notPrefix, "%s: recovered %s (snapshot %d, repair=%v) is the fold of no prefix of the %d records written; full fold would be %s",
 			where, describe(res.rw), res.walsnap.Index, res.repaired, img.wlen, describeFold(m.W, img.wlen, res.walsnap.Index))
 		return 0, false
